@@ -60,6 +60,44 @@ SizeOk ==
     /\ f.t = "DATA" => n >= 10 + 6 * Len(f.dgs)
     /\ \A i \in 1..Len(Encode(f)) : Encode(f)[i] \in 0..255
 
+(* ----- the receiving direction (Decode) on the same frames ----- *)
+
+(* what a receiver can know of a frame: ids a sync frame does not carry are read as zero *)
+Norm(x) == IF x.t = "SYNC" THEN [x EXCEPT !.nfid = IF x.has_f THEN @ ELSE <<0, 0>>, !.npid = IF x.has_p THEN @ ELSE <<0, 0>>] ELSE x
+
+RoundTrip == Decode(Encode(f)) = Norm(f)
+
+(* malformed variants of the encoding of f, derived from the format: every way of having bytes missing or left over
+   (all proper prefixes of short frames, the first and last prefixes of long ones, one to three bytes appended), every
+   count or length field one off in either direction, the type byte replaced, the error code out of range *)
+SetByte(b, i, v) == [b EXCEPT ![i] = v]
+CutShort(b) == LET n == Len(b) IN
+    IF n <= 120 THEN { SubSeq(b, 1, k) : k \in 0..(n - 1) }
+    ELSE { SubSeq(b, 1, k) : k \in (0..24) \cup ((n - 16)..(n - 1)) }
+Extensions(b) == { b \o x : x \in { <<0>>, <<128>>, <<192>>, <<255>>, <<1, 0>>, <<200, 0>>, <<0, 0, 0>>, <<128, 5, 0>> } }
+OffByOne(b, i) == IF i > Len(b) THEN {} ELSE { SetByte(b, i, (b[i] + 1) % 256), SetByte(b, i, (b[i] + 255) % 256) }
+FieldMutants(b) ==
+    CASE b[1] = 10 -> OffByOne(b, 6) \cup OffByOne(b, 7) \cup OffByOne(b, 8) \cup OffByOne(b, 9)      \* datagram count; first datagram's type / length bytes
+      [] b[1] = 12 -> OffByOne(b, 11) \cup OffByOne(b, 10)                                             \* ack group count
+      [] b[1] = 3 -> { SetByte(b, 6, v) : v \in {3, 4, 128, 255} }                                     \* error code
+      [] OTHER -> {}
+(* a data frame announcing one datagram more than it holds, followed by the beginning of a datagram header of each
+   encoding that is too short to be one (1..13 bytes; headers are 6 / 9 / 14 bytes) *)
+Tails == { <<first>> \o Zeros(k - 1) : first \in {0, 63}, k \in 1..5 } \cup { <<first>> \o Zeros(k - 1) : first \in {128, 191}, k \in 1..8 }
+         \cup { <<first>> \o Zeros(k - 1) : first \in {192, 255}, k \in 1..13 }
+CountTail(b) == IF b[1] = 10 /\ Len(b) <= 100 /\ b[6] % 128 < 127 THEN { SetByte(b, 6, b[6] + 1) \o x : x \in Tails } ELSE {}
+TypeMutants(b) == { SetByte(b, 1, v) : v \in {6, 7, 8, 9, 13, 14, 127, 128, 255} }
+Malformed(b) == CutShort(b) \cup Extensions(b) \cup TypeMutants(b) \cup CountTail(b)
+
+(* "wrong length, trailing or missing bytes, unknown type or enum value": on the model, none of these decodes *)
+MalformedRejected == \A m \in Malformed(Encode(f)) : Decode(m) = Rejected
+(* a field mutant may be well-formed again (a length byte one larger with one more payload byte is not among them,
+   but a changed lead or channel bit is): whatever it is, Decode must be total on it *)
+FieldMutantsDecided == \A m \in FieldMutants(Encode(f)) : Decode(m).t \in {"REJECT", "DATA", "ACKF", "ERR"}
+
+Variants(b) == Malformed(b) \cup FieldMutants(b)
+DumpMutants == ndJsonSerialize(IOEnv.MUTANTS, SetToSeq(UNION { { [body |-> m] : m \in Variants(Encode(g)) } : g \in { h \in Frames : Len(Encode(h)) <= 400 } }))
+
 Dump == ndJsonSerialize(IOEnv.VECTORS, SetToSeq(Frames))
-Written == Dump            \* POSTCONDITION: evaluates Dump once, writing the vectors file
+Written == Dump /\ DumpMutants            \* POSTCONDITION: evaluates Dump once, writing the vectors file
 ====================================================================================
